@@ -960,4 +960,113 @@ theorem coordinated_multipoint_energy (nr nt : Nat) (A : List (List Rat)) (draws
 
 example : (compBinary 2 2 [[1, 1], [0, 1]] [0, 1, 1, 0, 0, 0]).isSome = true := by decide +kernel
 
+/-! ## `anti_crossing_loops`: exact coefficients for every `num_variables` (the `set_*` calls overwrite) -/
+
+/-- the interactions written by `set_quadratic`, for `hf = num_variables / 4`: per `n < hf` the rung `n ~ n+hf` (odd `n`), the two
+    loop edges `n ~ (n+1) % hf` and `n+hf ~ (n+1) % hf + hf`, the two pendant edges `n ~ n+2hf`, `n+hf ~ n+3hf` -/
+theorem anti_crossing_loops_pairs (hf : Nat) (p : Label × Label) :
+    p ∈ pairsOf (acLoopsOps hf) ↔ ∃ n, n < hf ∧
+      ((n % 2 = 1 ∧ p = (iv n, iv (n + hf))) ∨ p = (iv n, iv ((n + 1) % hf)) ∨ p = (iv (n + hf), iv ((n + 1) % hf + hf))
+        ∨ p = (iv n, iv (n + 2 * hf)) ∨ p = (iv (n + hf), iv (n + 3 * hf))) := by
+  unfold acLoopsOps
+  simp only [pairsOf_append, pairsOf_flatMap, pairsOf, List.append_nil, List.mem_flatMap, List.mem_range, pairsOf_acLoopsRow,
+    List.mem_append, List.mem_cons, List.not_mem_nil, or_false]
+  constructor
+  · rintro ⟨n, hn, h⟩
+    refine ⟨n, hn, ?_⟩
+    rcases h with h | h
+    · split at h
+      · rename_i hodd; simp only [List.mem_cons, List.not_mem_nil, or_false] at h; exact Or.inl ⟨hodd, h⟩
+      · simp at h
+    · exact Or.inr h
+  · rintro ⟨n, hn, h⟩
+    refine ⟨n, hn, ?_⟩
+    rcases h with ⟨hodd, h⟩ | h
+    · left; simp only [hodd, if_true, List.mem_cons, List.not_mem_nil, or_false]; exact h
+    · exact Or.inr h
+
+/-- **every interaction is ferromagnetic `−1`, exactly on the written pairs** (a pair written twice — the single-edge loops of
+    `num_variables = 8` — is still `−1`: `set_quadratic` overwrites), 0 elsewhere -/
+theorem anti_crossing_loops_quadratic (num : Nat) (b : Bq Label) (h : acLoops num = some b) (u v : Label) :
+    Bq.lookupPair b.quad u v = if (pairsOf (acLoopsOps (num / 4))).any (fun p => samePair p.1 p.2 u v) = true then -1 else 0 := by
+  unfold acLoops at h
+  split at h
+  · simp at h
+  · rename_i hn
+    simp only [Option.some.injEq] at h; subst h
+    have hhf : 2 ≤ num / 4 := by omega
+    have hrows := acLoopsRows_ok (num / 4) hhf (List.range (num / 4)) (fun n hn => List.mem_range.mp hn)
+    have hneg : NegSets (acLoopsOps (num / 4)) := NegSets_append _ _ hrows.1 (by simp [NegSets])
+    rw [lookupPair_runOps _ hneg]
+    rfl
+
+/-- **linear biases**: `+1` on the loop variables `[0, 2hf)` except `0` and `hf` (reset by `set_linear`), `−1` on the pendant
+    variables `[2hf, 4hf)`, nothing else (`hf = num_variables / 4`) -/
+theorem anti_crossing_loops_linear (num : Nat) (b : Bq Label) (h : acLoops num = some b) (k : Nat) :
+    Bq.lookupKey b.lin (iv k)
+      = if k = 0 ∨ k = num / 4 then 0 else if k < 2 * (num / 4) then 1 else if k < 4 * (num / 4) then -1 else 0 := by
+  unfold acLoops at h
+  split at h
+  · simp at h
+  · rename_i hn
+    simp only [Option.some.injEq] at h; subst h
+    have hhf : 2 ≤ num / 4 := by omega
+    have hrows := acLoopsRows_ok (num / 4) hhf (List.range (num / 4)) (fun n hn => List.mem_range.mp hn)
+    unfold acLoopsOps
+    rw [runOps_append]
+    simp only [runOps, SetOp.run, Bq.setLinear, lookupKey_setKey, iv_inj]
+    rw [lookupKey_runOps _ hrows.2, linAdd_rangeFlatMap]
+    have e : (fun i => linAdd (iv k) (acLoopsRow (num / 4) i))
+        = (fun n => ((if n + 0 = k then (1 : Rat) else 0) + (if n + num / 4 = k then 1 else 0))
+            + ((-1) * (if n + 2 * (num / 4) = k then 1 else 0) + (-1) * (if n + 3 * (num / 4) = k then 1 else 0))) := by
+      funext n; rw [linAdd_acLoopsRow]; grind
+    rw [e, sumN_add, sumN_add, sumN_add, sumN_mul, sumN_mul, sumN_indicator, sumN_indicator, sumN_indicator, sumN_indicator]
+    simp only [Bq.empty, Bq.lookupKey]
+    by_cases h0 : k = 0
+    · subst h0
+      have : (0 : Nat) = 0 ∨ 0 = num / 4 := Or.inl rfl
+      simp
+    · by_cases h1 : k = num / 4
+      · subst h1; simp
+      · have hA : ¬ (num / 4 = k) := fun h => h1 h.symm
+        have hB : ¬ (0 = k) := fun h => h0 h.symm
+        simp only [hA, hB, h0, h1, if_false, or_self]
+        by_cases c1 : k < num / 4
+        · have a1 : (0 ≤ k ∧ k < 0 + num / 4) := by omega
+          have a2 : ¬ (num / 4 ≤ k ∧ k < num / 4 + num / 4) := by omega
+          have a3 : ¬ (2 * (num / 4) ≤ k ∧ k < 2 * (num / 4) + num / 4) := by omega
+          have a4 : ¬ (3 * (num / 4) ≤ k ∧ k < 3 * (num / 4) + num / 4) := by omega
+          have a5 : k < 2 * (num / 4) := by omega
+          simp only [a1, a2, a3, a4, a5, if_true, if_false, and_self]; grind
+        · by_cases c2 : k < 2 * (num / 4)
+          · have a1 : ¬ (0 ≤ k ∧ k < 0 + num / 4) := by omega
+            have a2 : (num / 4 ≤ k ∧ k < num / 4 + num / 4) := by omega
+            have a3 : ¬ (2 * (num / 4) ≤ k ∧ k < 2 * (num / 4) + num / 4) := by omega
+            have a4 : ¬ (3 * (num / 4) ≤ k ∧ k < 3 * (num / 4) + num / 4) := by omega
+            simp only [a1, a2, a3, a4, c2, if_true, if_false, and_self]; grind
+          · by_cases c3 : k < 3 * (num / 4)
+            · have a1 : ¬ (0 ≤ k ∧ k < 0 + num / 4) := by omega
+              have a2 : ¬ (num / 4 ≤ k ∧ k < num / 4 + num / 4) := by omega
+              have a3 : (2 * (num / 4) ≤ k ∧ k < 2 * (num / 4) + num / 4) := by omega
+              have a4 : ¬ (3 * (num / 4) ≤ k ∧ k < 3 * (num / 4) + num / 4) := by omega
+              have a5 : k < 4 * (num / 4) := by omega
+              simp only [a1, a2, a3, a4, c2, a5, if_true, if_false, and_self]; grind
+            · by_cases c4 : k < 4 * (num / 4)
+              · have a1 : ¬ (0 ≤ k ∧ k < 0 + num / 4) := by omega
+                have a2 : ¬ (num / 4 ≤ k ∧ k < num / 4 + num / 4) := by omega
+                have a3 : ¬ (2 * (num / 4) ≤ k ∧ k < 2 * (num / 4) + num / 4) := by omega
+                have a4 : (3 * (num / 4) ≤ k ∧ k < 3 * (num / 4) + num / 4) := by omega
+                simp only [a1, a2, a3, a4, c2, c4, if_true, if_false, and_self]; grind
+              · have a1 : ¬ (0 ≤ k ∧ k < 0 + num / 4) := by omega
+                have a2 : ¬ (num / 4 ≤ k ∧ k < num / 4 + num / 4) := by omega
+                have a3 : ¬ (2 * (num / 4) ≤ k ∧ k < 2 * (num / 4) + num / 4) := by omega
+                have a4 : ¬ (3 * (num / 4) ≤ k ∧ k < 3 * (num / 4) + num / 4) := by omega
+                simp only [a1, a2, a3, a4, c2, c4, if_false]; grind
+
+open Generated.GenTables in
+set_option maxRecDepth 100000 in
+/-- the two Chimera edge iterators (`_iter_chimera_tile_edges`, `_iter_chimera_intertile_edges`): the model lists are, element by
+    element and in iteration order, the lists the source produces for 11 lattice shapes up to Chimera(3, 3, 2) and Chimera(2, 2, 4) -/
+theorem chimera_edge_iterators_match_generated_tables : chimeraEdgeTables.all chimeraRowOK = true := by decide +kernel
+
 end C17
